@@ -32,7 +32,7 @@ REAL = ["bec2format.bf3file (parse_bf2_file, bf2_import, exec_bf2instrs, bf2_unp
         "annotations, pfid2_filter_to_str)", "bec2format.hwcids"]
 STUBS = ["medium: SimFS (text layer, CRLF)", "BF2 generator + ground truth + RefBF2 (sim/bf2gen.py)", "filter-expression "
          "evaluator (this file)"]
-PROBES = ["runs-with-assertions-disabled", "crlf-untranslated", "unknown-tag-type", "whole-page-lost", "middle-page-lost", "page-crossing", "gap-before-last-line", "gap-at-first-line", "lost-last-line", "dup-line", "swap-lines",
+PROBES = ["line-announces-more-than-it-carries", "runs-with-assertions-disabled", "crlf-untranslated", "unknown-tag-type", "whole-page-lost", "middle-page-lost", "page-crossing", "gap-before-last-line", "gap-at-first-line", "lost-last-line", "dup-line", "swap-lines",
           "ignored-section", "no-marker", "blob-gap-rejected", "bf2compat-faulted", "memimage-helper", "filter-expression",
           "three-types-sorted", "crlf"]
 ASSUMPTIONS = ["hardware-id names used in comparisons are transcribed into sim/bf2gen.py"]
@@ -54,7 +54,7 @@ def gen(st, tier):
     fault = None
     r = f.random()
     if r < 0.7:
-        kind = f.choice(["lost", "lost", "lost", "dup", "swap", "lostpage"])
+        kind = f.choice(["lost", "lost", "lost", "dup", "swap", "lostpage", "lenflip"])
         si = f.randrange(len(spec["sections"]))
         multi = [k for k, sec in enumerate(spec["sections"]) if sec["image"]["len"] > 0x10000]
         if multi and f.random() < 0.6:
@@ -181,6 +181,7 @@ def run(case):
         items = bf2gen.render_items(spec)
         truth = bf2gen.truth(spec)
         fault = case["fault"]
+        lenflip = None
         fsi = None
         surviving = None
         if spec.get("crlf"):
@@ -219,6 +220,26 @@ def run(case):
                             out.probes["middle-page-lost"] += 1
                 if kind == "lostpage":
                     pass
+                elif kind == "lenflip":
+                    # bit rot in the length byte inside a data line of a blob section: the line announces more
+                    # payload than it carries (only this direction is judged)
+                    info_ = bf2gen.TAGTYPES.get(spec["sections"][si]["tt"])
+                    ln_ = lines[i]
+                    v_ = ln_["raw"][4]
+                    zero_bits = [b_ for b_ in range(8) if not v_ >> b_ & 1]
+                    if info_ is None or info_[2] != 0 or not zero_bits or unknown:
+                        fault = None
+                    else:
+                        nv = v_ | 1 << zero_bits[int(fr2 * len(zero_bits)) % len(zero_bits)]
+                        raw_ = ln_["raw"][:4] + bytes([nv]) + ln_["raw"][5:]
+                        it_ = items[idx[i]]
+                        items[idx[i]] = (it_[0], it_[1], ":" + raw_.hex().upper(), it_[3])
+                        out.fired["line-length-flip"] += 1
+                        out.probes["line-announces-more-than-it-carries"] += 1
+                        lenflip = "blob section %d: data line %d announces %d payload bytes and carries %d" % (
+                            si, i, nv - 2, v_ - 2)
+                        fault = ["lenflip"] + list(fault[1:])
+                    kind = "done"
                 elif kind == "lost":
                     if len(idx) == 1:
                         fault = None   # losing the only line leaves an empty group: not this property's subject
@@ -246,7 +267,7 @@ def run(case):
                         out.probes["swap-lines"] += 1
                     else:
                         fault = None
-                if fault:
+                if fault and kind != "done":
                     fsi = si
                     surviving = [it[3] for it in items if it[0] == "data" and it[1] == si]
             else:
@@ -281,6 +302,9 @@ def run(case):
         exp = [dict(c) for c in truth]
         if unknown:
             expect_reject = expect_reject or ("tag type 0x%02X cannot be represented" % unknown[0])
+        if lenflip:
+            out.nontrivial = True
+            expect_reject = expect_reject or lenflip
         if fault and fsi is not None and bf2gen.TAGTYPES.get(spec["sections"][fsi]["tt"]) is not None and not unknown:
             out.nontrivial = True
             fmt = bf2gen.TAGTYPES[spec["sections"][fsi]["tt"]][2]
